@@ -40,7 +40,8 @@ def same(a, b, bitwise):
     if a[0] != "ok" or b[0] != "ok" or not common.is_number(a[1]) or not common.is_number(b[1]):
         return False
     if bitwise:
-        return float(a[1]) == float(b[1])
+        # same charge pattern, same computation: equal up to rounding noise of a possibly different summation order
+        return common.close(a[1], Fraction(float(b[1])), tol=Fraction(1, 10**12))
     return common.close(a[1], Fraction(float(b[1])))
 
 
